@@ -45,6 +45,17 @@ SHAPED = [
     (2, 4, 1, 4, 1, 7, [[(0, 0), (1, 0), (1, 1), (1, 2), (1, 3), (0, 3)], [(0, 1), (0, 2)]]),
     (3, 4, 1, 5, 1, 10, [[(0, 0), (0, 1), (0, 2), (0, 3), (1, 3), (2, 3), (2, 2), (2, 1), (2, 0)], [(1, 0), (1, 1), (1, 2)]]),
 ]
+# starting points where one bound is already tight, one per guard of candidates(): the update that the guard must
+# forbid is the only tempting one (a non-strict comparison then produces a value outside the bounds)
+SHAPED += [
+    (1, 2, 2, 2, 1, 2, [[(0, 0)], [(0, 1)]]),                       # merge with the block count at its minimum
+    (1, 3, 1, 3, 1, 2, [[(0, 0), (0, 1)], [(0, 2)]]),               # merge that would exceed max_block_size
+    (1, 2, 1, 1, 1, 2, [[(0, 0), (0, 1)]]),                         # split with the block count at its maximum
+    (1, 3, 1, 3, 2, 3, [[(0, 0), (0, 1), (0, 2)]]),                 # split whose smaller half is below min_block_size
+    (1, 4, 2, 2, 2, 3, [[(0, 0), (0, 1)], [(0, 2), (0, 3)]]),       # move out of a block at min_block_size
+    (1, 4, 2, 2, 1, 2, [[(0, 0), (0, 1)], [(0, 2), (0, 3)]]),       # move into a block at max_block_size
+    (2, 2, 2, 2, 2, 2, [[(0, 0), (0, 1)], [(1, 0), (1, 1)]]),       # everything tight on a 2x2 board
+]
 SCRIPTS = [[0, 1, 2, 3, 4, 5, 6, 7], [3, 1, 4, 1, 5, 9, 2, 6], [7, 0, 5, 2, 8, 1, 6, 3]]
 
 
@@ -259,8 +270,36 @@ def guards_strict(repo: Repo, rep: Report) -> None:
         raise AnalysisError(f"candidates(): update kinds found {kinds}")
 
 
+class _Hold:
+    """SEG-G failures mean 'not entailed by the guards', not 'refuted': they are reported as violations only when SEG-E
+    has a concrete history that breaks a bound; alone they leave the property undecided (exit 2)"""
+
+    def __init__(self, rep: Report):
+        self.rep = rep
+        self.held: List[Tuple[Any, ...]] = []
+
+    def __getattr__(self, name: str) -> Any:
+        return getattr(self.rep, name)
+
+    def finding(self, rule: str, *a: Any, **k: Any) -> None:
+        if rule == "SEG-G":
+            self.held.append((rule,) + a)
+        else:
+            self.rep.finding(rule, *a, **k)
+
+
 def run(repo: Repo, rep: Report) -> None:
     confinement(repo, rep)
-    guards_strict(repo, rep)
+    hold = _Hold(rep)
+    guards_strict(repo, hold)  # type: ignore[arg-type]
+    before = len(rep.findings)
     evaluation(repo, rep)
+    witnessed = len(rep.findings) > before
+    for h in hold.held:
+        rule, file, func, construct, message = h[:5]
+        line = h[5] if len(h) > 5 else None
+        if witnessed:
+            rep.finding(rule, file, func, construct, message, line)
+        else:
+            rep.undecide(rule, f"{construct}: {message} (not entailed; SEG-E found no history that breaks a bound)")
     rep.assume("boards up to 3x3 and three draw scripts stand for all boards/seeds in SEG-E; SEG-G is size-independent")
